@@ -114,8 +114,7 @@ func c17Covered(l *ast.ListNode) bool {
 		prevText = isText
 		switch n := n.(type) {
 		case *ast.RawTextNode:
-			t := string(n.Text)
-			if strings.TrimSpace(t) == "" || strings.ContainsAny(t, "{}\n\r\t") || strings.Contains(t, "//") || strings.Contains(t, "/*") {
+			if !c17TextOK(string(n.Text)) {
 				return false
 			}
 		case *ast.PrintNode, *ast.DebuggerNode, *ast.LetValueNode:
@@ -142,7 +141,98 @@ func c17Covered(l *ast.ListNode) bool {
 					return false
 				}
 			}
+		case *ast.SwitchNode:
+			// a default case prints as "{case }" (W1): only switches without one are read back
+			for _, c := range n.Cases {
+				if len(c.Values) == 0 {
+					return false
+				}
+				if b, ok := c.Body.(*ast.ListNode); !ok || !c17Covered(b) {
+					return false
+				}
+			}
+		case *ast.CallNode:
+			if i := strings.Index(n.Name, "."); i <= 0 {
+				return false
+			}
+			if n.Data != nil {
+				if n.AllData || !c17PlainAttr(n.Data.String()) {
+					return false
+				}
+			}
+			for _, p := range n.Params {
+				if pc, ok := p.(*ast.CallParamContentNode); ok {
+					if b, ok := pc.Content.(*ast.ListNode); !ok || !c17Covered(b) {
+						return false
+					}
+				}
+			}
+		case *ast.MsgNode:
+			// {msg} without {plural}: text / html-tag runs are one text item; placeholders hold covered commands
+			if !c17PlainASCII(n.Meaning) || !c17PlainASCII(n.Desc) {
+				return false
+			}
+			run, inRun := "", false
+			flushRun := func() bool {
+				ok := !inRun || c17TextOK(run)
+				run, inRun = "", false
+				return ok
+			}
+			for _, ch := range n.Body.Children() {
+				switch ch := ch.(type) {
+				case *ast.RawTextNode:
+					run, inRun = run+string(ch.Text), true
+				case *ast.MsgPlaceholderNode:
+					if tag, ok := ch.Body.(*ast.MsgHtmlTagNode); ok {
+						run, inRun = run+string(tag.Text), true
+						continue
+					}
+					if !flushRun() {
+						return false
+					}
+					if _, isText := ch.Body.(*ast.RawTextNode); isText || !c17Covered(&ast.ListNode{Nodes: []ast.Node{ch.Body}}) {
+						return false
+					}
+				default:
+					return false
+				}
+			}
+			if !flushRun() {
+				return false
+			}
+		case *ast.CssNode:
+			if strings.ContainsAny(n.Suffix, ",{}") || strings.TrimSpace(n.Suffix) != n.Suffix || n.Suffix == "" {
+				return false
+			}
 		default:
+			return false
+		}
+	}
+	return true
+}
+
+// c17TextOK: raw text whose String() the scanner reads back as one text item with the same bytes
+func c17TextOK(t string) bool {
+	return !(strings.TrimSpace(t) == "" || strings.ContainsAny(t, "{}\n\r\t") || strings.Contains(t, "//") || strings.Contains(t, "/*"))
+}
+
+// c17PlainASCII: inside the printer model's domain of %q
+func c17PlainASCII(s string) bool {
+	for i := 0; i < len(s); i++ {
+		if s[i] >= 128 {
+			return false
+		}
+	}
+	return true
+}
+
+// c17PlainAttr: the printed expression can stand between double quotes unescaped (Spec/CmdSyntax.v plain)
+func c17PlainAttr(s string) bool {
+	if s == "all" {
+		return false
+	}
+	for i := 0; i < len(s); i++ {
+		if c := s[i]; c < 32 || c >= 127 || c == '"' || c == '\\' {
 			return false
 		}
 	}
